@@ -142,7 +142,7 @@ def _steps_for(rng, cmd, acc, xm):
     if cmd in ("sign-message", "hash-message", "hash-data"):
         n = rng.choice([0, 1, 12, 100, 1000, rng.randrange(0, 500)])
         if rng.random() < 0.08:
-            n = rng.choice([65535, 65536, 65537, 100000, 200000])  # more than one pipe buffer through stdin
+            n = rng.choice([4095, 4096, 4097, 8191, 8192, 8193, 16384, 32768, 65535, 65536, 65537, 100000, 131072, 200000])  # buffer-size boundaries, more than one pipe buffer
         inp = rand_bytes(rng, min(n, 4096)) * (n // 4096 + 1)
         inp = inp[:n]
         if rng.random() < 0.3:
